@@ -183,26 +183,34 @@ Definition times (c : ctx) (hs : list (link * Z)) : list (Z * Z) := times_acc c 
 
 Definition zmin_list (d : Z) (l : list Z) : Z := match l with [] => d | x :: t => fold_left Z.min t x end.
 
-(* CircuitCompositeOperation.duration AS CODED: earliest start over depth-1 nodes, latest end over graph leaves *)
-Definition span_as_coded (ps : list (option nat)) (tm : list (Z * Z)) : Z :=
+(* CircuitCompositeOperation._relative_extent: earliest start and latest end over ALL nodes of the graph (a nested block
+   contributes its own inner extent, shifted to its start), relative to the earliest start among the depth-1 nodes *)
+Definition extent_of_nodes (ps : list (option nat)) (tm : list (Z * Z)) (exts : list (Z * Z)) : Z * Z :=
   match ps with
-  | [] => 0
+  | [] => (0, 0)
   | _ => let rel0 := zmin_list 0 (map (fun i => fst (nth i tm (0, 0))) (depth1 ps)) in
-         fold_left Z.max (map (fun i => snd (nth i tm (0, 0)) - rel0) (graph_leaves ps)) 0
+         fold_left (fun (acc : Z * Z) (i : nat) =>
+                      let s := fst (nth i tm (0, 0)) - rel0 in
+                      let '(lo, hi) := nth i exts (0, 0) in
+                      (Z.min (fst acc) (s + lo), Z.max (snd acc) (s + hi)))
+                   (bfs ps) (0, 0)
   end.
 
-Fixpoint dur_of (env : denv) (o : op) : Z :=
+(* inner extent of an operation relative to its own start: a leaf occupies [0, duration] *)
+Fixpoint ext_of (env : denv) (o : op) : Z * Z :=
   match o with
-  | OLeaf l => resolve env (l_dur l)
+  | OLeaf l => (0, resolve env (l_dur l))
   | OComp _ ns =>
-      let ds := (fix go (l : list node) : list Z := match l with [] => [] | Node _ _ o' :: t => dur_of env o' :: go t end) ns in
-      span_as_coded (parents ns) (times None (combine (map n_link ns) ds))
+      let exts := (fix go (l : list node) : list (Z * Z) := match l with [] => [] | Node _ _ o' :: t => ext_of env o' :: go t end) ns in
+      let ds := map (fun e => snd e - fst e) exts in
+      extent_of_nodes (parents ns) (times None (combine (map n_link ns) ds)) exts
   end.
+Definition dur_of (env : denv) (o : op) : Z := let '(lo, hi) := ext_of env o in hi - lo.
 
 Definition node_times (env : denv) (c : ctx) (ns : list node) : list (Z * Z) :=
   times c (combine (map n_link ns) (map (fun n => dur_of env (n_op n)) ns)).
 
-Definition comp_duration (env : denv) (ns : list node) : Z := span_as_coded (parents ns) (node_times env None ns).
+Definition comp_duration (env : denv) (ns : list node) : Z := dur_of env (OComp 1 ns).
 
 (* ------------------------------------------------------------------ listing (decomposed_operations) *)
 Record entry := { e_leaf : leaf; e_start : Z; e_end : Z }.
